@@ -105,8 +105,11 @@ Definition is_returned (m : mstate) (id : Z) : bool :=
 (** ids that the publish of [tp] linearised now must have pruned when it returns:
     subscribe returned, same topic, receiver already dropped *)
 Definition must_prune (m : mstate) (tp : Z) : list Z :=
-  map fst (filter (fun kv => k_ret (snd kv) && (k_topic (snd kv) =? tp) && zmem (k_chan (snd kv)) (m_closed m))
-                  (m_known m)).
+  filter (fun id => match lookup (m_known m) id with
+                    | Some k => k_ret k && (k_topic k =? tp) && zmem (k_chan k) (m_closed m)
+                    | None => false
+                    end)
+         (map fst (m_known m)).
 
 Definition pending_sub (m : mstate) (tp c : Z) : bool :=
   existsb (fun tp_ => match p_op (snd tp_) with OSub tp' c' => (tp' =? tp) && (c' =? c) | _ => false end) (m_pend m).
